@@ -4,6 +4,8 @@
 From Coq Require Import ZArith List Bool Lia Permutation.
 From GT Require Import Base.LogConc.
 From GT Require Import Base.LogConcProofs.
+From GT Require Import Base.LogConcCfg.
+From GT Require Import Base.LogConcCfgProofs.
 From GT Require Import LogCtxModel.
 Import ListNotations.
 Local Open Scope Z_scope.
@@ -41,6 +43,78 @@ Qed.
 
 Lemma abs_custom_level : forall c l, abs (custom_level c l) = set_level l (abs c).
 Proof. reflexivity. Qed.
+
+(* ------------------------------------------------------------------ the wrapper core, method by method *)
+(* Enabled: only the receiver's own threshold counts *)
+Lemma enabled_level : forall c l, enabled c l = (core_level c <=? l).
+Proof. destruct c; reflexivity. Qed.
+
+(* Check: the wrapper adds ITSELF (not the wrapped core) iff its own threshold admits the entry *)
+Lemma check_wrap : forall c m l, check (Wrap c m) l = if m <=? l then [Wrap c m] else [].
+Proof. reflexivity. Qed.
+
+(* Write / Sync are promoted from the embedded core: they reach the innermost core, whatever
+   thresholds lie in between *)
+Lemma write_sink : forall c extra, write c extra = write (sink c) extra.
+Proof. induction c as [m fs | c IH m]; intros extra; cbn; [reflexivity | apply IH]. Qed.
+
+Lemma sink_base : forall c, exists m fs, sink c = Base m fs.
+Proof. induction c as [m fs | c IH m]; cbn; [eexists; eexists; reflexivity | exact IH]. Qed.
+
+(* With keeps every wrapper and appends to the innermost core *)
+Lemma sink_core_with : forall c fs, sink (core_with c fs) = core_with (sink c) fs.
+Proof. induction c as [m f | c IH m]; intros fs; cbn; [reflexivity | apply IH]. Qed.
+
+Lemma core_with_wrap_all : forall ms c fs, core_with (wrap_all c ms) fs = wrap_all (core_with c fs) ms.
+Proof.
+  unfold wrap_all. induction ms as [|m ms IH]; intros c fs; cbn; [reflexivity|]. rewrite IH. reflexivity.
+Qed.
+
+Lemma cfields_wrap_all : forall ms c, cfields (wrap_all c ms) = cfields c.
+Proof. unfold wrap_all. induction ms as [|m ms IH]; intros c; cbn; [reflexivity | rewrite IH; reflexivity]. Qed.
+
+Lemma last_cons_default : forall {A} (l : list A) x d d', last (x :: l) d = last (x :: l) d'.
+Proof.
+  intros A l. induction l as [|y l IH]; intros x d d'; [reflexivity|].
+  change (last (x :: y :: l) d) with (last (y :: l) d).
+  change (last (x :: y :: l) d') with (last (y :: l) d'). apply IH.
+Qed.
+
+Lemma clevel_wrap_all : forall ms c, clevel (wrap_all c ms) = last ms (clevel c).
+Proof.
+  unfold wrap_all. induction ms as [|m ms IH]; intros c; [reflexivity|].
+  cbn [fold_left]. rewrite IH. cbn [clevel]. destruct ms as [|l ms]; [reflexivity|].
+  change (last (m :: l :: ms) (clevel c)) with (last (l :: ms) (clevel c)). apply last_cons_default.
+Qed.
+
+(* level filtering through any nest of wrappers: exactly the most recent SetLevel counts - the
+   thresholds underneath (and the base core's own) neither block nor admit anything *)
+Lemma emit_wrap_all : forall c ms l,
+  emit (wrap_all c ms) l = semit (cfields c, last ms (clevel c)) l.
+Proof.
+  intros c ms l. rewrite emit_abs. unfold abs. rewrite cfields_wrap_all, clevel_wrap_all. reflexivity.
+Qed.
+
+Lemma emit_wrap : forall c m l, emit (Wrap c m) l = if m <=? l then [cfields c] else [].
+Proof. intros c m l. rewrite emit_abs. reflexivity. Qed.
+
+(* raise after lower: the lower threshold underneath no longer lets anything through *)
+Lemma raise_after_lower : forall c lo hi l, l < hi -> emit (Wrap (Wrap c lo) hi) l = [].
+Proof. intros c lo hi l H. rewrite emit_wrap. apply Z.leb_gt in H. rewrite H. reflexivity. Qed.
+
+(* lower after raise: the higher threshold underneath no longer blocks *)
+Lemma lower_after_raise : forall c lo hi l, lo <= l -> emit (Wrap (Wrap c hi) lo) l = [cfields c].
+Proof. intros c lo hi l H. rewrite emit_wrap. apply Z.leb_le in H. rewrite H. reflexivity. Qed.
+
+(* fields accumulate in call order, duplicates included (zap does not deduplicate keys) *)
+Lemma with_order : forall c fs1 fs2,
+  cfields (core_with (core_with c fs1) fs2) = cfields c ++ fs1 ++ fs2.
+Proof. intros. rewrite !cfields_core_with, app_assoc. reflexivity. Qed.
+
+Lemma with_count : forall c fs k,
+  count_occ N.eq_dec (cfields (core_with c fs)) k
+  = (count_occ N.eq_dec (cfields c) k + count_occ N.eq_dec fs k)%nat.
+Proof. intros. rewrite cfields_core_with. apply count_occ_app. Qed.
 
 (* ------------------------------------------------------------------ simulation *)
 (* the model state is the spec state seen through [abs], holder by holder *)
@@ -137,6 +211,92 @@ Lemma run_obs_refines : forall g ops,
   run_obs core_with (init g) ops = srun_obs (sinit (abs g)) ops.
 Proof. intros g ops. apply run_obs_refines_from. apply sim_init. Qed.
 
+(* ------------------------------------------------------------------ holder-less contexts, InitLogger *)
+(* every holder index a context carries exists *)
+Definition wf (st : state) : Prop :=
+  forall c h, nth c (ctxs st) None = Some h -> (h < length (store st))%nat.
+
+Lemma nth_app_one : forall {A} (l : list A) x d c,
+  nth c (l ++ [x]) d = if (c <? length l)%nat then nth c l d else if (c =? length l)%nat then x else d.
+Proof.
+  intros A l x d c. destruct (c <? length l)%nat eqn:E.
+  - apply Nat.ltb_lt in E. apply app_nth1. exact E.
+  - apply Nat.ltb_ge in E. rewrite app_nth2 by exact E.
+    destruct (c =? length l)%nat eqn:E2.
+    + apply Nat.eqb_eq in E2. rewrite E2, Nat.sub_diag. reflexivity.
+    + apply Nat.eqb_neq in E2. destruct (c - length l)%nat as [|[|k]] eqn:E3; try reflexivity; lia.
+Qed.
+
+Lemma upd_length : forall {A} n (x : A) l, length (upd n x l) = length l.
+Proof. intros A n x l. revert n. induction l as [|a l IH]; intros [|n]; cbn; try reflexivity. rewrite IH. reflexivity. Qed.
+
+Lemma wf_fresh : forall st c, wf st -> wf (fresh st c).
+Proof.
+  intros st c H c' h Hc. unfold fresh in *. cbn in *. rewrite app_length. cbn.
+  rewrite nth_app_one in Hc. destruct (c' <? length (ctxs st))%nat.
+  - specialize (H _ _ Hc). lia.
+  - destruct (c' =? length (ctxs st))%nat; [injection Hc as <-; lia | discriminate].
+Qed.
+
+Lemma wf_step : forall st o, wf st -> wf (step core_with st o).
+Proof.
+  intros st o H.
+  assert (Hupd : forall c f, wf (update st c f)).
+  { intros c f. unfold update. destruct (holder_of st c) as [h|] eqn:Eh; [|apply wf_fresh; exact H].
+    intros c' h' Hc. cbn in *. rewrite upd_length. rewrite nth_app_one in Hc.
+    destruct (c' <? length (ctxs st))%nat; [apply (H _ _ Hc)|].
+    destruct (c' =? length (ctxs st))%nat; [injection Hc as <-; apply (H c h Eh) | discriminate]. }
+  destruct o as [c fs | c fs | c fs | c l | c | c | g]; cbn [step]; try apply wf_fresh; try apply Hupd; try exact H.
+  - intros c' h' Hc. cbn in *. rewrite nth_app_one in Hc.
+    destruct (c' <? length (ctxs st))%nat; [apply (H _ _ Hc)|].
+    destruct (c' =? length (ctxs st))%nat; [apply (H c h' Hc) | discriminate].
+  - intros c' h' Hc. cbn in *. rewrite nth_app_one in Hc.
+    destruct (c' <? length (ctxs st))%nat; [apply (H _ _ Hc)|].
+    destruct (c' =? length (ctxs st))%nat; discriminate.
+Qed.
+
+Lemma wf_run : forall g ops, wf (run core_with g ops).
+Proof.
+  intros g ops. unfold run.
+  assert (G : forall ops st, wf st -> wf (fold_left (step core_with) ops st)).
+  { induction ops0 as [|o ops0 IH]; intros st H; cbn; [exact H | apply IH, wf_step, H]. }
+  apply G. intros c h Hc. cbn in Hc. destruct c as [|[|c]]; discriminate.
+Qed.
+
+(* Log(ctx) on a context without a holder is the global logger of the moment *)
+Lemma log_fallback : forall st c, holder_of st c = None -> log_of st c = glob st.
+Proof. intros st c H. unfold log_of, logger_of. rewrite H. reflexivity. Qed.
+
+(* WithFields / SetLevel / EnableDebug through a holder-less context: the global logger is not
+   touched, no existing context sees anything of it, and only the RETURNED context carries the
+   derived logger (a fresh holder) *)
+Lemma default_holder_isolated : forall g ops c f,
+  let st := run core_with g ops in
+  holder_of st c = None ->
+  glob (update st c f) = glob st
+  /\ (forall c', (c' < length (ctxs st))%nat -> logger_of (update st c f) c' = logger_of st c')
+  /\ logger_of (update st c f) (length (ctxs st)) = f (glob st).
+Proof.
+  intros g ops c f st Hc. pose proof (wf_run g ops) as Hwf. fold st in Hwf.
+  unfold update. rewrite Hc. unfold fresh. split; [reflexivity|]. split.
+  - intros c' Hlt. unfold logger_of, holder_of. cbn.
+    rewrite nth_app_one. apply Nat.ltb_lt in Hlt as Hb. rewrite Hb.
+    destruct (nth c' (ctxs st) None) as [h|] eqn:Eh; [|reflexivity].
+    apply app_nth1. apply (Hwf _ _ Eh).
+  - unfold logger_of, holder_of. cbn. rewrite nth_app_one, Nat.ltb_irrefl, Nat.eqb_refl.
+    rewrite nth_app_one, Nat.ltb_irrefl, Nat.eqb_refl. reflexivity.
+Qed.
+
+(* InitLogger never looks at the context it is given: whatever holder (fields, level) that
+   context carries is ignored, the new logger is the global one plus the fields *)
+Lemma init_ignores_context : forall st c fs,
+  log_of (step core_with st (OInit c fs)) (length (ctxs st)) = logger_with core_with (glob st) fs.
+Proof.
+  intros st c fs. cbn [step]. unfold log_of, logger_of, holder_of, fresh. cbn.
+  rewrite nth_app_one, Nat.ltb_irrefl, Nat.eqb_refl.
+  rewrite nth_app_one, Nat.ltb_irrefl, Nat.eqb_refl. reflexivity.
+Qed.
+
 (* ------------------------------------------------------------------ what the spec says *)
 (* the specification itself, spelled out per operation (sanity of the spec):
    an operation through a context whose holder is h' <> h, or that forks a new holder,
@@ -201,22 +361,27 @@ Proof.
 Qed.
 
 (* ------------------------------------------------------------------ concurrent part *)
-Lemma cprog_shape : forall o, cprog o = [ILoad; ICas (cfn o) 0].
+Lemma cprog_shape : forall o,
+  cprog o = if cop_is_read o then [IRead] else [ILoad; ICas (cfn o) 0].
 Proof. destruct o; reflexivity. Qed.
 
 Lemma cident_pure : forall f o v, cident f o = true -> cpure core_with f o v = v.
 Proof.
-  intros [|] o v H; cbn in *; [|discriminate].
+  intros [| |] o v H; cbn in *; [|discriminate|reflexivity].
   unfold logger_with. rewrite H. reflexivity.
 Qed.
+
+Lemma cread_pure : forall o v, cop_is_read o = true -> cpure core_with (cfn o) o v = v.
+Proof. intros [fs | l | fs] v H; cbn in *; try discriminate. reflexivity. Qed.
 
 Definition capply (c : core) (o : cop) : core := cpure core_with (cfn o) o c.
 
 Lemma abs_capply : forall c o, abs (capply c o) = sapply (abs c) o.
 Proof.
-  intros c [fs | l]; unfold capply; cbn [cfn cpure cop_fields cop_level sapply].
+  intros c [fs | l | fs]; unfold capply; cbn [cfn cpure cop_fields cop_level sapply].
   - apply abs_logger_with.
   - apply abs_custom_level.
+  - reflexivity.
 Qed.
 
 Lemma abs_fold_capply : forall tr c, abs (fold_left capply tr c) = fold_left sapply tr (abs c).
@@ -229,7 +394,7 @@ Lemma fold_sapply : forall tr x,
 Proof.
   induction tr as [|o tr IH]; intros [fs l]; cbn [fold_left flat_map].
   - cbn. rewrite app_nil_r. reflexivity.
-  - rewrite IH. destruct o as [gs | l']; cbn; rewrite <- ?app_assoc; reflexivity.
+  - rewrite IH. destruct o as [gs | l' | gs]; cbn; rewrite <- ?app_assoc, ?app_nil_r; reflexivity.
 Qed.
 
 Lemma flat_map_perm : forall {A B} (f : A -> list B) l l',
@@ -252,7 +417,7 @@ Lemma conc_linearisable : forall c0 progs sched st tr,
   /\ abs (snd (m_cell st)) = fold_left sapply (untag cop tr) (abs c0).
 Proof.
   intros c0 progs sched st tr Hrun Hret.
-  destruct (run_linearisable cop core fn (cpure core_with) cident cprog cfn cprog_shape cident_pure
+  destruct (run_linearisable cop core fn (cpure core_with) cident cprog cfn cop_is_read cprog_shape cident_pure cread_pure
               c0 progs sched st tr Hrun Hret) as (Hp & Hc & Ho).
   split; [exact Hp | split; [exact Ho|]]. rewrite Hc. apply abs_fold_capply.
 Qed.
@@ -285,9 +450,141 @@ Lemma conc_prefix : forall c0 progs sched st tr,
   /\ exists rest, Permutation (untag cop tr ++ rest) (concat progs).
 Proof.
   intros c0 progs sched st tr Hrun.
-  destruct (run_cell cop core fn (cpure core_with) cident cprog cfn cprog_shape cident_pure
+  destruct (run_cell cop core fn (cpure core_with) cident cprog cfn cop_is_read cprog_shape cident_pure cread_pure
               c0 progs sched st tr Hrun) as (Hc & Hp & _).
   split; [rewrite Hc; apply abs_fold_capply | eexists; exact Hp].
+Qed.
+
+(* ------------------------------------------------------------------ ChildLogger under concurrency *)
+Lemma nth_error_split : forall {A} (l : list A) i x, nth_error l i = Some x ->
+  l = firstn i l ++ x :: skipn (S i) l.
+Proof.
+  intros A l. induction l as [|a l IH]; intros [|i] x H; cbn in *; try discriminate.
+  - injection H as ->. reflexivity.
+  - f_equal. apply IH. exact H.
+Qed.
+
+Lemma firstn_S_nth : forall {A} (l : list A) i x, nth_error l i = Some x ->
+  firstn (S i) l = firstn i l ++ [x].
+Proof.
+  intros A l. induction l as [|a l IH]; intros [|i] x H; cbn in *; try discriminate.
+  - injection H as ->. reflexivity.
+  - f_equal. apply IH. exact H.
+Qed.
+
+Lemma untag_firstn : forall i (tr : list (nat * cop)), untag cop (firstn i tr) = firstn i (untag cop tr).
+Proof. intros i tr. unfold untag. symmetry. apply firstn_map. Qed.
+
+Lemma ops_of_app' : forall t (a b : list (nat * cop)), ops_of cop t (a ++ b) = ops_of cop t a ++ ops_of cop t b.
+Proof. intros t a b. unfold ops_of. rewrite filter_app, map_app. reflexivity. Qed.
+
+(* a ChildLogger call that runs concurrently with WithFields / SetLevel on the same holder
+   starts from EXACTLY the sequential state after a prefix of the linearisation: the logger it
+   loads is the specification applied to the operations linearised before its Load ... *)
+Lemma conc_child_sees_prefix : forall c0 progs sched st tr i t fs,
+  crun (cinit c0 progs) sched = (st, tr) -> nth_error tr i = Some (t, CChild fs) ->
+  exists seen, nth_error (crun_vals (cinit c0 progs) sched) i = Some seen
+    /\ abs seen = fold_left sapply (untag cop (firstn i tr)) (abs c0)
+    /\ forall l, emit (logger_with core_with seen fs) l
+                 = semit (add_fields fs (fold_left sapply (untag cop (firstn i tr)) (abs c0))) l.
+Proof.
+  intros c0 progs sched st tr i t fs Hrun Hi.
+  destruct (run_vals_spec cop core fn (cpure core_with) cident cprog cfn cop_is_read
+              cprog_shape cident_pure cread_pure c0 progs sched st tr Hrun) as (Hlen & Hnth).
+  assert (Hlt : (i < length tr)%nat) by (apply nth_error_Some; rewrite Hi; discriminate).
+  exists (nth i (crun_vals (cinit c0 progs) sched) c0).
+  assert (Habs : abs (nth i (crun_vals (cinit c0 progs) sched) c0)
+                 = fold_left sapply (untag cop (firstn i tr)) (abs c0)).
+  { unfold crun_vals, cinit. rewrite (Hnth i Hlt).
+    assert (Hu : nth_error (untag cop tr) i = Some (CChild fs)).
+    { unfold untag. rewrite nth_error_map, Hi. reflexivity. }
+    rewrite (firstn_S_nth _ _ _ Hu), fold_left_app. cbn [fold_left].
+    change (apply_op cop core fn (cpure core_with) cfn) with capply.
+    unfold capply at 1. cbn [cfn cpure]. rewrite abs_fold_capply, untag_firstn. reflexivity. }
+  split; [|split; [exact Habs|]].
+  - apply nth_error_nth'. unfold crun_vals, cinit. rewrite Hlen. exact Hlt.
+  - intros l. rewrite emit_abs, abs_logger_with, Habs. reflexivity.
+Qed.
+
+(* ... and that prefix contains every earlier operation of its own goroutine and none of the
+   later ones *)
+Lemma conc_child_program_order : forall c0 progs sched st tr i t fs,
+  crun (cinit c0 progs) sched = (st, tr) -> all_returned cop core st = true ->
+  nth_error tr i = Some (t, CChild fs) ->
+  nth t progs [] = ops_of cop t (firstn i tr) ++ CChild fs :: ops_of cop t (skipn (S i) tr).
+Proof.
+  intros c0 progs sched st tr i t fs Hrun Hret Hi.
+  destruct (conc_linearisable c0 progs sched st tr Hrun Hret) as (_ & Ho & _).
+  rewrite <- (Ho t). rewrite (nth_error_split tr i _ Hi) at 1.
+  rewrite ops_of_app'. f_equal. unfold ops_of at 1. cbn. rewrite Nat.eqb_refl. reflexivity.
+Qed.
+
+(* ------------------------------------------------------------------ the translator tie *)
+(* The graphs regenerated from the source need not LOOK like the hand-written programs: if the
+   bisimulation check passes for every operation, the machine running the regenerated graphs
+   and the machine of the theorems above are indistinguishable under every schedule. *)
+Lemma fn_eqb_eq : forall f g, fn_eqb f g = true -> f = g.
+Proof. intros [| |] [| |] H; try discriminate H; reflexivity. Qed.
+
+Lemma cprog_wf : forall o i f k, nth_error (cprog o) i = Some (ICas f k) -> (k < length (cprog o))%nat.
+Proof.
+  intros [fs | l | fs] [|[|[|i]]] f k H; cbn in H; try discriminate H;
+    injection H as _ <-; cbn; lia.
+Qed.
+
+Lemma tie_sound : forall gp : cop -> list (ginstr fn),
+  (forall o, prog_equiv fn fn_eqb (gp o) (hand_graph o) = true) ->
+  forall c0 progs sched st tr, gcrun gp (cinit c0 progs) sched = (st, tr) ->
+  exists st', crun (cinit c0 progs) sched = (st', tr)
+              /\ m_cell st = m_cell st'
+              /\ all_returned cop core st = all_returned cop core st'
+              /\ gcrun_obs gp (cinit c0 progs) sched = crun_obs (cinit c0 progs) sched.
+Proof.
+  intros gp Htie c0 progs sched st tr Hrun.
+  destruct (crun (cinit c0 progs) sched) as [st' tr'] eqn:Hc.
+  assert (Hg : grun cop core fn (cpure core_with) cident hand_graph (cinit c0 progs) sched = (st', tr')).
+  { unfold hand_graph. change (fun o => embed fn (cprog o)) with (eprog cop fn cprog).
+    rewrite (grun_embed cop core fn (cpure core_with) cident cprog cprog_wf). exact Hc. }
+  destruct (bisim_sound cop core fn (cpure core_with) cident fn_eqb fn_eqb_eq gp hand_graph
+              (fun o => prog_equiv_bisim fn fn_eqb _ _ (Htie o))
+              c0 progs sched st tr st' tr' Hrun Hg) as (Etr & Ecell & Eret & _ & Eobs).
+  subst tr'. exists st'. repeat split; try assumption.
+  unfold gcrun_obs. unfold cinit. rewrite Eobs.
+  unfold hand_graph. change (fun o => embed fn (cprog o)) with (eprog cop fn cprog).
+  apply (grun_obs_embed cop core fn (cpure core_with) cident cprog cprog_wf).
+Qed.
+
+(* nothing lost, for the machine that runs the graphs regenerated from the source *)
+Lemma conc_nothing_lost_src : forall gp : cop -> list (ginstr fn),
+  (forall o, prog_equiv fn fn_eqb (gp o) (hand_graph o) = true) ->
+  forall c0 progs sched st tr,
+  gcrun gp (cinit c0 progs) sched = (st, tr) -> all_returned cop core st = true ->
+  (exists added, Permutation added (flat_map cop_fields (concat progs))
+                 /\ cfields (snd (m_cell st)) = cfields c0 ++ added)
+  /\ Permutation (untag cop tr) (concat progs)
+  /\ (forall t, ops_of cop t tr = nth t progs [])
+  /\ abs (snd (m_cell st)) = fold_left sapply (untag cop tr) (abs c0)
+  /\ forall l, emit (snd (m_cell st)) l
+               = semit (cfields c0 ++ flat_map cop_fields (untag cop tr),
+                        lin_level (untag cop tr) (clevel c0)) l.
+Proof.
+  intros gp Htie c0 progs sched st tr Hrun Hret.
+  destruct (tie_sound gp Htie c0 progs sched st tr Hrun) as (st' & Hc & Ecell & Eret & _).
+  rewrite Eret in Hret. rewrite Ecell.
+  destruct (conc_nothing_lost c0 progs sched st' tr Hc Hret) as (H1 & H2 & _ & H4).
+  destruct (conc_linearisable c0 progs sched st' tr Hc Hret) as (_ & Ho & Habs).
+  repeat split; assumption.
+Qed.
+
+Lemma tie_ok_all : forall gp, (forall o o', cfn o = cfn o' -> gp o = gp o') -> tie_ok gp = true ->
+  forall o, prog_equiv fn fn_eqb (gp o) (hand_graph o) = true.
+Proof.
+  intros gp Hdep H o. unfold tie_ok in H.
+  apply andb_true_iff in H as [H H3]. apply andb_true_iff in H as [H1 H2].
+  destruct o as [fs | l | fs].
+  - rewrite (Hdep (CWith fs) (CWith []) eq_refl). exact H1.
+  - rewrite (Hdep (CSetLevel l) (CSetLevel 0) eq_refl). exact H2.
+  - rewrite (Hdep (CChild fs) (CChild []) eq_refl). exact H3.
 Qed.
 
 (* ------------------------------------------------------------------ progress *)
@@ -300,7 +597,7 @@ Lemma conc_lockfree : forall c0 progs sched0 st tr0 t o rest sched st' tr',
   crun st sched = (st', tr') ->
   In (t, o) tr' \/ exists t' o', t' <> t /\ In (t', o') tr'.
 Proof.
-  exact (progress_lockfree cop core fn (cpure core_with) cident cprog cfn cprog_shape cident_pure).
+  exact (progress_lockfree cop core fn (cpure core_with) cident cprog cfn cop_is_read cprog_shape cident_pure cread_pure).
 Qed.
 
 Lemma conc_obstruction_free : forall c0 progs sched0 st tr0 t o rest sched st' tr',
@@ -310,7 +607,7 @@ Lemma conc_obstruction_free : forall c0 progs sched0 st tr0 t o rest sched st' t
   (forall e, In e tr' -> fst e = t) ->
   In (t, o) tr'.
 Proof.
-  exact (progress_obstruction_free cop core fn (cpure core_with) cident cprog cfn cprog_shape cident_pure).
+  exact (progress_obstruction_free cop core fn (cpure core_with) cident cprog cfn cop_is_read cprog_shape cident_pure cread_pure).
 Qed.
 
 Lemma conc_solo : forall c0 progs sched0 st tr0 t o rest st' tr',
@@ -318,7 +615,7 @@ Lemma conc_solo : forall c0 progs sched0 st tr0 t o rest st' tr',
   cops_of t st = o :: rest ->
   crun st (repeat t 3) = (st', tr') -> In (t, o) tr'.
 Proof.
-  exact (progress_solo cop core fn (cpure core_with) cident cprog cfn cprog_shape cident_pure).
+  exact (progress_solo cop core fn (cpure core_with) cident cprog cfn cop_is_read cprog_shape cident_pure cread_pure).
 Qed.
 
 Lemma conc_failed_cas : forall c0 progs sched0 st tr0 t th o rest mid st' tr',
@@ -327,7 +624,7 @@ Lemma conc_failed_cas : forall c0 progs sched0 st tr0 t th o rest mid st' tr',
   crun st (t :: mid ++ [t]) = (st', tr') ->
   In (t, o) tr' \/ exists t' o', t' <> t /\ In (t', o') tr'.
 Proof.
-  exact (progress_failed_cas cop core fn (cpure core_with) cident cprog cfn cprog_shape cident_pure).
+  exact (progress_failed_cas cop core fn (cpure core_with) cident cprog cfn cop_is_read cprog_shape cident_pure cread_pure).
 Qed.
 
 (* ------------------------------------------------------------------ pinned code refuted *)
@@ -356,3 +653,33 @@ Lemma conc_orig_witness2 :
   all_returned cop core (fst r) = true /\ clevel (snd (m_cell (fst r))) = 0
   /\ untag cop (snd r) = [CSetLevel (-1); CWith [1%N]].
 Proof. vm_compute. repeat split; reflexivity. Qed.
+
+(* the pinned code refuted: statements as used by Props/C18.v *)
+Lemma seq_orig_refuted : exists g ops c l,
+  emit (log_of (run core_with_orig g ops) c) l <> semit (slogger_of (srun (abs g) ops) c) l.
+Proof.
+  exists (Base 0 []), seq_witness, 1%nat, (-1). destruct seq_orig_witness as [E1 E2].
+  rewrite E1, E2. discriminate.
+Qed.
+
+Lemma conc_orig_refuted : exists c0 progs sched,
+  let r := crun_orig (cinit c0 progs) sched in
+  all_returned cop core (fst r) = true
+  /\ ~ (exists added, Permutation added (flat_map cop_fields (concat progs))
+                      /\ cfields (snd (m_cell (fst r))) = cfields c0 ++ added).
+Proof.
+  exists (Base 0 []), conc_witness_progs, conc_witness_sched.
+  destruct conc_orig_witness as [Hret Hf]. split; [exact Hret|].
+  intros (added & Hp & He). rewrite Hf in He. cbn in He. subst added.
+  apply Permutation_length in Hp. discriminate.
+Qed.
+
+Lemma conc_orig_level_refuted : exists c0 progs sched,
+  let r := crun_orig (cinit c0 progs) sched in
+  all_returned cop core (fst r) = true
+  /\ clevel (snd (m_cell (fst r))) <> lin_level (untag cop (snd r)) (clevel c0).
+Proof.
+  exists (Base 0 []), conc_witness2_progs, conc_witness2_sched.
+  destruct conc_orig_witness2 as (Hret & Hl & Htr). split; [exact Hret|].
+  rewrite Hl, Htr. discriminate.
+Qed.
